@@ -344,6 +344,188 @@ def expand_properties(prog, f, node, depth=2):
     return node
 
 
+def _record_fields(prog, f, ctor):
+    """the constructor call `K(...)` builds a plain record: -> (field names in positional order, {property: getter return expr},
+    is_tuple) or None.  K is a module-level `namedtuple('K', [...])` / `namedtuple('K', 'a b')`, or a repository class whose
+    __init__ only stores its parameters under their own attribute each (plus read-only single-return properties)."""
+    if not isinstance(ctor, ast.Call) or not isinstance(ctor.func, (ast.Name, ast.Attribute)):
+        return None
+    r = prog.resolve(f.mod, ctor.func)
+    if r and r[0] == 'value':
+        v = r[2]
+        if isinstance(v, ast.Call) and isinstance(v.func, (ast.Name, ast.Attribute)) and (prog.dotted(r[1], v.func) or norm(v.func)).split('.')[-1] == 'namedtuple' \
+                and len(v.args) == 2 and not v.keywords:
+            try:
+                fl = ast.literal_eval(v.args[1])
+            except Exception:
+                return None
+            if isinstance(fl, str):
+                fl = fl.replace(',', ' ').split()
+            if isinstance(fl, (list, tuple)) and fl and all(isinstance(x, str) and x.isidentifier() for x in fl):
+                return list(fl), {}, True
+        return None
+    if r and r[0] == 'class':
+        ci = r[1]
+        if ci.bases or ci.ext_bases and any(b not in ('object',) for b in ci.ext_bases):
+            return None
+        init = ci.methods.get('__init__')
+        if init is None or init.node.args.vararg or init.node.args.kwarg or init.node.args.kwonlyargs:
+            return None
+        fields = []
+        attr_of = {}
+        for st in init.node.body:
+            if isinstance(st, ast.Expr) and isinstance(st.value, ast.Constant):
+                continue
+            if isinstance(st, ast.Assign) and len(st.targets) == 1 and isinstance(st.targets[0], ast.Attribute) and norm(st.targets[0].value) == 'self' \
+                    and isinstance(st.value, ast.Name) and st.value.id in init.params[1:] and st.value.id not in attr_of:
+                attr_of[st.value.id] = st.targets[0].attr
+            else:
+                return None
+        if set(attr_of) != set(init.params[1:]):
+            return None
+        fields = [attr_of[p_] for p_ in init.params[1:]]
+        props = {}
+        for name, g in ci.getters.items():
+            body = [s_ for s_ in g.node.body if not (isinstance(s_, ast.Expr) and isinstance(s_.value, ast.Constant))]
+            if len(body) == 1 and isinstance(body[0], ast.Return) and body[0].value is not None and name not in ci.setters:
+                props[name] = body[0].value
+        # nothing else may store the fields (a method mutating the record)
+        for g in ci.methods.values():
+            if g is init:
+                continue
+            if any(isinstance(n, ast.Attribute) and isinstance(n.ctx, (ast.Store, ast.Del)) for n in ast.walk(g.node)):
+                return None
+        return fields, props, False
+    return None
+
+
+def scalar_replace_records(prog, f, node):
+    """a local bound once to a plain record (`x = K(a, b)`, see _record_fields) and used afterwards only as `x.field`,
+    `x.property`, `*x` / `a, b = x` (tuples) is replaced by one local per field: pipelines that pass small named tuples or outcome
+    objects between their stages read like the code that passes the values themselves."""
+    stores = {}
+    for n in ast.walk(node):
+        if isinstance(n, ast.Name) and isinstance(n.ctx, (ast.Store, ast.Del)):
+            stores[n.id] = stores.get(n.id, 0) + 1
+    params = {a.arg for a in node.args.posonlyargs + node.args.args + node.args.kwonlyargs}
+    pm = astutil.parents(node)
+    changed = False
+    for st in [n for n in ast.walk(node) if isinstance(n, ast.Assign)]:
+        if not (len(st.targets) == 1 and isinstance(st.targets[0], ast.Name) and isinstance(st.value, ast.Call)):
+            continue
+        x = st.targets[0].id
+        if stores.get(x, 0) != 1 or x in params:
+            continue
+        rf_ = _record_fields(prog, f, st.value)
+        if rf_ is None:
+            continue
+        fields, props, is_tuple = rf_
+        call = st.value
+        if any(isinstance(a, ast.Starred) for a in call.args) or any(k.arg is None for k in call.keywords):
+            continue
+        vals = {}
+        for i_, a in enumerate(call.args):
+            if i_ < len(fields):
+                vals[fields[i_]] = a
+        for k in call.keywords:
+            if k.arg in fields and k.arg not in vals:
+                vals[k.arg] = k.value
+        if set(vals) != set(fields) or len(call.args) + len(call.keywords) != len(fields):
+            continue
+        # the block holding the construction, and the statements after it
+        par = pm.get(st)
+        blk = None
+        for fld in ('body', 'orelse', 'finalbody'):
+            b_ = getattr(par, fld, None)
+            if isinstance(b_, list) and any(z is st for z in b_):
+                blk = b_
+        if blk is None:
+            continue
+        after = blk[[i for i, z in enumerate(blk) if z is st][0] + 1:]
+        after_nodes = {id(n) for z in after for n in ast.walk(z)}
+        uses = [n for n in ast.walk(node) if isinstance(n, ast.Name) and n.id == x and isinstance(n.ctx, ast.Load)]
+        ok = True
+        for u in uses:
+            up = pm.get(u)
+            if id(u) not in after_nodes:
+                ok = False
+            elif isinstance(up, ast.Attribute) and isinstance(up.ctx, ast.Load) and (up.attr in fields or up.attr in props):
+                pass
+            elif is_tuple and isinstance(up, ast.Starred) and isinstance(pm.get(up), ast.Call) and up in pm.get(up).args:
+                pass
+            elif is_tuple and isinstance(up, ast.Assign) and up.value is u and len(up.targets) == 1 and isinstance(up.targets[0], ast.Tuple) \
+                    and len(up.targets[0].elts) == len(fields) and not any(isinstance(e_, ast.Starred) for e_ in up.targets[0].elts):
+                pass
+            else:
+                ok = False
+        if not ok or not uses:
+            continue
+        # one local per field, bound where the record was built (arguments are evaluated in the same order)
+        order = [a for a in call.args] + [k.value for k in call.keywords]
+        names = {}
+        binds = []
+        for a in order:
+            fld = [k_ for k_, v_ in vals.items() if v_ is a][0]
+            direct = isinstance(a, ast.Constant) or (isinstance(a, ast.Name) and stores.get(a.id, 0) + (1 if a.id in params else 0) <= 1)
+            if direct:
+                names[fld] = a
+            else:
+                nm = f'{x}__{fld}'
+                names[fld] = ast.Name(id=nm, ctx=ast.Load())
+                binds.append(ast.copy_location(ast.Assign(targets=[ast.Name(id=nm, ctx=ast.Store())], value=a), st))
+
+        def field_expr(fld):
+            return copy.deepcopy(names[fld])
+
+        class PropSub(ast.NodeTransformer):
+            def visit_Attribute(self, n):
+                self.generic_visit(n)
+                if isinstance(n.value, ast.Name) and n.value.id == 'self' and n.attr in fields and isinstance(n.ctx, ast.Load):
+                    return field_expr(n.attr)
+                return n
+
+        class R(ast.NodeTransformer):
+            def visit_Attribute(self, n):
+                if isinstance(n.value, ast.Name) and n.value.id == x and isinstance(n.ctx, ast.Load):
+                    if n.attr in fields:
+                        return ast.copy_location(field_expr(n.attr), n)
+                    if n.attr in props:
+                        return ast.copy_location(PropSub().visit(copy.deepcopy(props[n.attr])), n)
+                self.generic_visit(n)
+                return n
+
+            def visit_Call(self, n):
+                new_args = []
+                for a in n.args:
+                    if isinstance(a, ast.Starred) and isinstance(a.value, ast.Name) and a.value.id == x:
+                        new_args.extend(field_expr(fl_) for fl_ in fields)
+                    else:
+                        new_args.append(a)
+                n.args = new_args
+                self.generic_visit(n)
+                return n
+
+            def visit_Assign(self, n):
+                if isinstance(n.value, ast.Name) and n.value.id == x and len(n.targets) == 1 and isinstance(n.targets[0], ast.Tuple):
+                    n.value = ast.Tuple(elts=[field_expr(fl_) for fl_ in fields], ctx=ast.Load())
+                    return n
+                self.generic_visit(n)
+                return n
+        if any(isinstance(n, ast.Name) and n.id == 'self' for pv in props.values() for n in ast.walk(PropSub().visit(copy.deepcopy(pv)))):
+            # a property reading anything else of the record object: only replace when it is not used
+            used_props = {pm.get(u).attr for u in uses if isinstance(pm.get(u), ast.Attribute) and pm.get(u).attr in props}
+            if any(isinstance(n, ast.Name) and n.id == 'self' for p_ in used_props for n in ast.walk(PropSub().visit(copy.deepcopy(props[p_])))):
+                continue
+        for z in after:
+            R().visit(z)
+        i0 = [i for i, z in enumerate(blk) if z is st][0]
+        blk[i0:i0 + 1] = binds if binds else [ast.copy_location(ast.Pass(), st)]
+        changed = True
+        ast.fix_missing_locations(node)
+        return scalar_replace_records(prog, f, node)      # parents changed: start again for the next record
+    return node
+
+
 class _ZipLoops(ast.NodeTransformer):
     """`for i, (a, b) in enumerate(zip(X, Y))` / `for a, b in zip(X, Y)` / `for i, a in enumerate(X)` over plain attribute or name
     expressions -> `for i in range(len(X)): a = X[i]; b = Y[i]` (arrays of one length iterate over their first axis; the rules read
@@ -406,6 +588,7 @@ def normal(prog, f, skip=(), depth=2):
     g.inlined_helpers = list(g.inlined)
     f = f0
     node = copy.deepcopy(g.node)
+    node = scalar_replace_records(prog, f0, node)
     node = _ZipLoops().visit(node)
     node.body = _split_tuple_assigns(node.body)
     node.body = _unroll(prog, f, node.body)
